@@ -401,13 +401,74 @@ pub fn simulate(t: &Trajectory, n_cmds: usize, history: &[Op]) -> Expected {
     e
 }
 
+/// presentation details of the debugger / the interactive interpreter that are not part of any property (prompt text, the tags in
+/// front of program output): *calibrated* once per run on a program with known output instead of being hard-coded
+#[derive(Clone, Debug)]
+pub struct Calib {
+    pub prompt: String,
+    pub out_tag: String,
+    pub err_tag: String,
+}
+
+impl Calib {
+    pub fn default_() -> Calib {
+        Calib { prompt: "> ".to_string(), out_tag: "[stdout] ".to_string(), err_tag: "[stderr] ".to_string() }
+    }
+}
+
+static DBG_CALIB: std::sync::OnceLock<Calib> = std::sync::OnceLock::new();
+static REPL_CALIB: std::sync::OnceLock<Calib> = std::sync::OnceLock::new();
+
+/// program that writes `A` to stdout and then `B` to stderr
+const CALIB_PROGRAM: &str = "혀어어어엉............. 항. 혀어어어어엉........... 항..";
+
+pub fn calibrate(bin: &std::path::Path, scratch: &std::path::Path, repl: bool) -> Calib {
+    let cell = if repl { &REPL_CALIB } else { &DBG_CALIB };
+    cell.get_or_init(|| {
+        let mut c = Calib::default_();
+        let dir = proc::scratch_dir(scratch, "calib");
+        let file = dir.join("p.hyeong");
+        let _ = std::fs::write(&file, CALIB_PROGRAM);
+        let run = |script: &str| -> Option<String> {
+            let o = proc::RunOpts::new(script.as_bytes());
+            let r = if repl { proc::run(bin, &["--color", "never"], &o) } else { proc::run(bin, &["--color", "never", "debug", file.to_str().unwrap()], &o) };
+            r.ok().filter(|r| r.status == proc::Status::Code(0)).map(|r| r.out_str())
+        };
+        // prompt = what is written after the last complete line when the tool waits for the first command
+        if let Some(t0) = run("") {
+            let tail = t0.rsplit('\n').next().unwrap_or("");
+            if !tail.is_empty() {
+                c.prompt = tail.to_string();
+            }
+        }
+        let script = if repl { format!("{}\n", CALIB_PROGRAM) } else { "r\n".to_string() };
+        if let Some(t) = run(&script) {
+            for line in t.lines() {
+                let line = line.strip_prefix(c.prompt.as_str()).unwrap_or(line);
+                if let Some(tag) = line.strip_suffix('A') {
+                    if !tag.is_empty() && !tag.contains(CALIB_PROGRAM) {
+                        c.out_tag = tag.to_string();
+                    }
+                } else if let Some(tag) = line.strip_suffix('B') {
+                    if !tag.is_empty() {
+                        c.err_tag = tag.to_string();
+                    }
+                }
+            }
+        }
+        let _ = std::fs::remove_dir_all(&dir);
+        c
+    })
+    .clone()
+}
+
 /// cut the transcript into the text that follows each prompt
-pub fn split_transcript(text: &str) -> (String, Vec<String>) {
+pub fn split_transcript(text: &str, prompt: &str) -> (String, Vec<String>) {
     let mut header = String::new();
     let mut chunks: Vec<String> = Vec::new();
     for line in text.split_inclusive('\n') {
         let mut rest = line;
-        while let Some(r) = rest.strip_prefix("> ") {
+        while let Some(r) = rest.strip_prefix(prompt) {
             chunks.push(String::new());
             rest = r;
         }
@@ -419,12 +480,12 @@ pub fn split_transcript(text: &str) -> (String, Vec<String>) {
     (header, chunks)
 }
 
-fn outputs_of(chunk_lines: &[&str]) -> Result<(String, String), String> {
+fn outputs_of(chunk_lines: &[&str], cal: &Calib) -> Result<(String, String), String> {
     let (mut out, mut err) = (String::new(), String::new());
     for l in chunk_lines {
-        if let Some(x) = l.strip_prefix("[stdout] ") {
+        if let Some(x) = l.strip_prefix(cal.out_tag.as_str()) {
             out.push_str(x);
-        } else if let Some(x) = l.strip_prefix("[stderr] ") {
+        } else if let Some(x) = l.strip_prefix(cal.err_tag.as_str()) {
             err.push_str(x);
         } else if !l.is_empty() {
             return Err(format!("unexpected line {:?}", l));
@@ -433,8 +494,15 @@ fn outputs_of(chunk_lines: &[&str]) -> Result<(String, String), String> {
     Ok((out, err))
 }
 
+/// index shown at the start of a listing line
 fn listing_index(line: &str) -> Option<usize> {
-    line.split_once(" | ")?.0.trim().parse().ok()
+    let t = line.trim_start();
+    let digits: String = t.chars().take_while(|c| c.is_ascii_digit()).collect();
+    if digits.is_empty() {
+        None
+    } else {
+        digits.parse().ok()
+    }
 }
 
 pub fn check(c: &Case11, st: &mut Stats, bin: &std::path::Path, scratch: &std::path::Path, budget: usize) -> CheckResult {
@@ -487,7 +555,8 @@ pub fn check(c: &Case11, st: &mut Stats, bin: &std::path::Path, scratch: &std::p
         }
     }
     let transcript = r.out_str();
-    let (_, chunks) = split_transcript(&transcript);
+    let cal = calibrate(bin, scratch, false);
+    let (_, chunks) = split_transcript(&transcript, &cal.prompt);
     ensure!(chunks.len() == exp.chunks.len(), "c11:prompts", "the debugger prompted {} times, the model expects {} on script [{}]; transcript {:?}", chunks.len(), exp.chunks.len(), shown_script(), transcript);
     for (i, (got, want)) in chunks.iter().zip(exp.chunks.iter()).enumerate() {
         let cmd = exp.lines.get(i).cloned().unwrap_or_else(|| "<end of input>".to_string());
@@ -495,14 +564,14 @@ pub fn check(c: &Case11, st: &mut Stats, bin: &std::path::Path, scratch: &std::p
         let lines: Vec<&str> = got.lines().collect();
         match want {
             Chunk::Ignore => {
-                ensure!(!lines.iter().any(|l| l.starts_with("[stdout] ") || l.starts_with("[stderr] ")), "c11:output", "{}: program output shown where none is due: {:?}", at(), got);
+                ensure!(!lines.iter().any(|l| l.starts_with(cal.out_tag.as_str()) || l.starts_with(cal.err_tag.as_str())), "c11:output", "{}: program output shown where none is due: {:?}", at(), got);
             }
             Chunk::Eof => ensure!(got.is_empty(), "c11:eof", "{}: text after the last prompt: {:?}", at(), got),
             Chunk::State(dump) => ensure!(got == dump, "c11:state", "{}: displayed state {:?} want {:?}", at(), got, dump),
             Chunk::Next { index, out, err } => {
                 ensure!(!lines.is_empty(), "c11:listing", "{}: no command listed", at());
                 ensure!(listing_index(lines[0]) == Some(*index), "c11:listing", "{}: listed {:?}, the command to execute is #{}", at(), lines[0], index);
-                match outputs_of(&lines[1..]) {
+                match outputs_of(&lines[1..], &cal) {
                     Ok((o, e)) => {
                         ensure!(o == *out, "c11:output", "{}: stdout shown {:?} want {:?}", at(), o, out);
                         ensure!(e == *err, "c11:output", "{}: stderr shown {:?} want {:?}", at(), e, err);
@@ -510,7 +579,7 @@ pub fn check(c: &Case11, st: &mut Stats, bin: &std::path::Path, scratch: &std::p
                     Err(m) => fail!("c11:output", "{}: {}", at(), m),
                 }
             }
-            Chunk::Run { out, err } => match outputs_of(&lines) {
+            Chunk::Run { out, err } => match outputs_of(&lines, &cal) {
                 Ok((o, e)) => {
                     ensure!(o == *out, "c11:output", "{}: stdout shown {:?} want {:?}", at(), o, out);
                     ensure!(e == *err, "c11:output", "{}: stderr shown {:?} want {:?}", at(), e, err);
